@@ -28,6 +28,9 @@ var verifC05Src = []string{
 	"if 1 = 1 then update t set b = @p where a < @x; end if;",  // 14: statement inside a block, table declared outside
 	"if 1 = 1 then insert into t values (@p, @q, @r); delete from t where a < @x; end if;", // 15
 	"update t set a = b, b = a where id <> 1",                  // 16: every SET value is computed from the old row
+	"alter table t add c default b first",                      // 17: a default computed from an existing column, at a position
+	"alter table t add (c default a, d default id) before b",   // 18
+	"alter table t add c default b after id",                   // 19
 }
 
 var verifC05Rollback []parser.Statement
@@ -163,6 +166,24 @@ func VerifC05Statements() {
 		for i := range ref {
 			c := ref[i].cells
 			ref[i].cells = []verifCellSpec{iv(p), null, c[0], c[1], c[2]}
+		}
+	case 17:
+		cols = []string{"c", "id", "a", "b"}
+		for i := range ref {
+			c := ref[i].cells
+			ref[i].cells = []verifCellSpec{c[2], c[0], c[1], c[2]}
+		}
+	case 18:
+		cols = []string{"id", "a", "c", "d", "b"}
+		for i := range ref {
+			c := ref[i].cells
+			ref[i].cells = []verifCellSpec{c[0], c[1], c[1], c[0], c[2]}
+		}
+	case 19:
+		cols = []string{"id", "c", "a", "b"}
+		for i := range ref {
+			c := ref[i].cells
+			ref[i].cells = []verifCellSpec{c[0], c[2], c[1], c[2]}
 		}
 	case 8:
 		cols = []string{"id", "b"}
